@@ -230,9 +230,11 @@ theorem compute_normal_eq (v1 v2 : P K) (r : K) (h1 : v1.sqLen = 1) (h2 : v2.sqL
   rw [hr]
   simp only [geom] at hc hc0 h1 ⊢
   have hrne : r ≠ 0 := ne_of_gt hr0
-  apply P.ext' <;> simp only []
-  · trace_state; sorry
-  · sorry
+  have hden : -((v1.y + v2.y) / r) * -v1.y + (v1.x + v2.x) / r * v1.x
+      = (1 + (v1.x * v2.x + v1.y * v2.y)) / r := by
+    field_simp
+    linear_combination h1
+  apply P.ext' <;> simp only [] <;> rw [hden] <;> field_simp
 end normal
 
 end Lyon.C06
